@@ -14,7 +14,10 @@ def sto_name(b):
 class CHECK(Check):
     pid = "C01"
     entry = "LINE"
-    theorems = ["C01_roundtrip_line", "C01_field_int", "C01_field_lit", "C01_field_missing", "C01_field_date", "C01_float_decimal", "C01_float_half_unit", "C01_float_sci_shape", "C01_float_sci", "C01_float_zero", "C01_float_dialect", "C01_stable_line", "C01_stable_fields", "C01_setters", "C01_rn64_is_round_nearest_even", "C01_rn64_nearest", "C01_round_idempotent", "C01_stable_float", "C01_stable_float_zero"]
+    theorems = ["C01_roundtrip_line", "C01_field_int", "C01_field_lit", "C01_field_missing", "C01_field_date", "C01_float_decimal", "C01_float_half_unit", "C01_float_sci_shape", "C01_float_sci", "C01_float_zero", "C01_float_dialect", "C01_stable_line", "C01_stable_fields", "C01_setters", "C01_rn64_is_round_nearest_even", "C01_rn64_nearest", "C01_round_idempotent", "C01_stable_float", "C01_stable_float_zero",
+                "C01_float_sci_fits_not_raises", "C01_float_sci_raises", "C01_round_absorbed_fixed", "C01_round_fixed_never_raises",
+                "C01_round_absorbed_sci", "C01_float_sci_half_unit", "C01_float_sci_writes", "C01_stable_float_sci",
+                "C01_refuted_sci_half_unit_subnormal", "C01_refuted_sci_half_unit_16_digits", "C01_refuted_sci_write_raises"]
     property_files = ["C01", "C01real"]
     rule = ("positional text layouts of 1-6 non-overlapping fields (literal, integer, float with 0-8 decimals in F/f/E/e "
             "notation and '.' or ',' separator, dates with one format or a format list) in any order with gaps x value "
@@ -48,6 +51,17 @@ class CHECK(Check):
                     fd = {"k": "float", "size": size, "start": 2, "dd": dd, "fmt": fmt, "sep": sep}
                     for x in grid[:: 2 * step]:
                         yield {"fields": [fd], "values": [["float", fl.f2b(x * 10 ** (dd % 3))]], "setters": None}
+        # E notation at the edges of binary64: subnormals, neighbours of powers of ten (where round() and the C library's
+        # log10 matter), up to 17 significant digits, the top of the range (round() overflows)
+        for x, dd in [(1.04e-322, 1), (1.0000000000000001e23, 15), (1.7976931348623157e308, 2), (1.7976931348623157e308, 16),
+                      (5e-324, 0), (5e-324, 3), (2.2250738585072014e-308, 0), (2.2250738585072014e-308, 14), (9.999999999999993e-308, 14),
+                      (9.5, 0), (0.95, 1), (1e23, 0), (1e22, 2)]:
+            yield {"fields": [{"k": "float", "size": 30, "start": 0, "dd": dd, "fmt": "E", "sep": "."}], "values": [["float", fl.f2b(x)]], "setters": None}
+        for _ in range(1500 if tier == "quick" else 60000):
+            dd = rng.choice([0, 1, 2, 3, 5, 8, 12, 13, 14, 14, 15, 16, rng.randint(0, 16)])
+            x = fl.sci_boundary_value(rng, dd)
+            fd = {"k": "float", "size": rng.choice([30, 30, dd + 8, dd + 7]), "start": rng.choice([0, 3]), "dd": dd, "fmt": rng.choice("Ee"), "sep": rng.choice(".,")}
+            yield {"fields": [fd], "values": [["float", fl.f2b(x)]], "setters": None}
         n = 3500 if tier == "quick" else 120000
         for _ in range(n):
             fs = fl.gen_layout(rng)
@@ -135,10 +149,32 @@ class CHECK(Check):
         return {"t1": fl.ostr(t1), "read": [fl.canon_model_value(v) for v in r], "t2": fl.ostr(t2), "size": size,
                 "fits": all(fits) and len(fits) == len(case["fields"])}
 
+    @staticmethod
+    def sci_floats(case):
+        for fd, v in zip(case["fields"], case["values"]):
+            if fd["k"] == "float" and fd["fmt"] in "Ee" and v and v[0] == "float":
+                x = fl.b2f(v[1])
+                if x == x and abs(x) != math.inf and x != 0:
+                    yield fd, x
+
+    def overflow_on_rounding(self, case):
+        """a single E-notation float whose rounding to the declared digits exceeds the largest double: the value's rendering
+        would fit the field, so the case is inside the property's domain although the model (like the code) raises"""
+        sf = list(self.sci_floats(case))
+        return len(case["fields"]) == 1 and len(sf) == 1 and fl.sci_rounding_overflows(sf[0][1], sf[0][0]["dd"]) \
+            and sf[0][0]["size"] >= sf[0][0]["dd"] + 8
+
     def in_domain(self, case, mobs):
-        return mobs["fits"]
+        return mobs["fits"] or self.overflow_on_rounding(case)
+
+    def comparable(self, case):
+        # FloatField's E branch calls the C library's log10; where its floor is not the exact one the model (exact floor)
+        # does not describe the code. The oracle below still judges these cases.
+        return all(fl.libm_log10_exact(x) for _, x in self.sci_floats(case))
 
     def compare(self, case, iobs, mobs):
+        if "raised" in iobs:
+            return None if mobs["t1"] is None else "impl raised %s, model wrote %r" % (iobs["raised"], mobs["t1"])
         for k in ("t1", "read", "t2", "size"):
             if iobs.get(k) != mobs[k]:
                 return "%s: impl=%r model=%r" % (k, iobs.get(k), mobs[k])
@@ -147,6 +183,8 @@ class CHECK(Check):
     # ---- direct oracle from the property text
     def oracle(self, case, obs):
         if "t1" not in obs:
+            if obs.get("raised") == "OverflowError" and self.overflow_on_rounding(case):
+                return "E notation at the top of the range: write raises OverflowError (round() of the value to the declared digits exceeds the largest double)"
             return "write/read raised: %s" % (obs,)
         t1, r, t2 = obs["t1"], obs["read"], obs["t2"]
         fs, vals = case["fields"], case["values"]
@@ -222,6 +260,10 @@ class CHECK(Check):
             ex = int(norm.upper().split("E")[1]) if "E" in norm.upper() else 0
             unit = Fraction(10) ** (ex - dec)
         if abs(D - Fraction(x)) * 2 > unit:
+            if sci and x != 0 and abs(x) < 2.2250738585072014e-308:
+                return "E notation of a subnormal value: emitted decimal is further than half a unit of its last digit from the value"
+            if sci and x != 0 and fd["dd"] >= 15:
+                return "E notation with sixteen or more significant digits: emitted decimal is further than half a unit of its last digit from the value"
             return "emitted decimal is further than half a unit of its last digit from the value"
         if got is None or got[0] != "float" or fl.b2f(got[1]) != float(norm):
             return "float text does not read back as float(text)"
@@ -245,7 +287,7 @@ class CHECK(Check):
 
     def signature(self, case, why):
         import re
-        return re.sub(r"[0-9]+|'[^']*'|\[.*\]", "#", why)[:70]
+        return re.sub(r"[0-9]+|'[^']*'|\[.*\]", "#", why)[:90]
 
     def shrink(self, case):
         if len(case["fields"]) > 1:
